@@ -2,7 +2,7 @@
    (nil, t, fixnums, characters, strings, symbols, vectors) whose references are consistent: on such keys
    slip's eql is exactly Go's == on the key representation. *)
 From Coq Require Import ZArith NArith List Bool Lia Arith.
-From C16 Require Import Model Spec Proofs.
+From C16 Require Import Model Spec Proofs Proofs2 Proofs4.
 Import ListNotations.
 Open Scope nat_scope.
 Open Scope list_scope.
@@ -91,4 +91,19 @@ Proof.
       destruct (gokey_eqb (gokey_of a) (gokey_of b)) eqn:E1; simpl; auto.
       destruct (gokey_eqb (gokey_of b) (gokey_of c)) eqn:E2; simpl; auto.
       apply (gokey_trans _ _ _ Ka Kb Kc E1 E2).
+Qed.
+
+Theorem table_is_map_on_simple_keys : forall pool ops,
+  simple_pool pool = true ->
+  (forall a b, In a pool -> In b pool -> consistent2 a b /\ const_words a b) ->
+  forallb (op_in_range (List.length pool)) ops = true ->
+  Forall2 obs_equiv (t_run pool [] ops) (s_run pool (pool_test 1 pool) [] ops).
+Proof. intros pool ops S C R. apply table_refines_map; auto. apply simple_pool_ok; auto. Qed.
+
+Lemma refs_reflexive : forall a, eql_m a a = true /\ equal_m a a = true /\ equalp_m a a = true.
+Proof. intro a. unfold eql_m, equal_m, equalp_m. rewrite eq_m_refl. auto. Qed.
+Lemma copies_reflexive : forall x w w',
+  equal_m (mkref x w) (mkref x w') = true /\ equalp_m (mkref x w) (mkref x w') = true.
+Proof.
+  intros x w w'. unfold equal_m, equalp_m. simpl. rewrite equal_s_refl, equalp_s_refl, !orb_true_r. auto.
 Qed.
